@@ -10,7 +10,7 @@ git -C /repo worktree add -q --detach $WT HEAD || exit 2
 missed=0
 for id in $IDS; do
   d=/verif/seeded/$id
-  prop=$(python3 -c "import json;print(json.load(open('$d/meta.json'))['property'])")
+  prop=$(python3 -c "import json;m=json.load(open('$d/meta.json'));print(m.get('detected_by',{}).get('check') or m['property'])")
   cp $d/patch.diff /tmp/regress_$id.patch
   out=$(/verif/trial.sh $WT /tmp/regress_$id.patch $prop $SECS 2>&1 | tail -1)
   rm -f /tmp/regress_$id.patch
